@@ -575,7 +575,10 @@ fn factored_code_delta(prev_offset: u32, offset: u32, factor: u8) -> Result<u32>
     }
     let delta = offset - prev_offset;
     let factor = u32::from(factor);
-    let factored_delta = delta / factor;
+    // A zero factor cannot express any advance.
+    let factored_delta = delta
+        .checked_div(factor)
+        .ok_or(Error::InvalidFrameCodeOffset(offset))?;
     if delta != factored_delta * factor {
         return Err(Error::InvalidFrameCodeOffset(offset));
     }
@@ -584,7 +587,10 @@ fn factored_code_delta(prev_offset: u32, offset: u32, factor: u8) -> Result<u32>
 
 fn factored_data_offset(offset: i32, factor: i8) -> Result<i32> {
     let factor = i32::from(factor);
-    let factored_offset = offset / factor;
+    // Fails for a zero factor, and for `i32::MIN / -1`.
+    let factored_offset = offset
+        .checked_div(factor)
+        .ok_or(Error::InvalidFrameDataOffset(offset))?;
     if offset != factored_offset * factor {
         return Err(Error::InvalidFrameDataOffset(offset));
     }
@@ -663,10 +669,14 @@ pub(crate) mod convert {
             Section: read::UnwindSection<R>,
             Section::Offset: read::UnwindOffset<usize>,
         {
+            let code_alignment_factor = u8::try_from(from_cie.code_alignment_factor())
+                .map_err(|_| ConvertError::Write(Error::ValueTooLarge))?;
+            let data_alignment_factor = i8::try_from(from_cie.data_alignment_factor())
+                .map_err(|_| ConvertError::Write(Error::ValueTooLarge))?;
             let mut cie = CommonInformationEntry::new(
                 from_cie.encoding(),
-                from_cie.code_alignment_factor() as u8,
-                from_cie.data_alignment_factor() as i8,
+                code_alignment_factor,
+                data_alignment_factor,
                 from_cie.return_address_register(),
             );
 
@@ -717,7 +727,8 @@ pub(crate) mod convert {
         {
             let address =
                 convert_address(from_fde.initial_address()).ok_or(ConvertError::InvalidAddress)?;
-            let length = from_fde.len() as u32;
+            let length = u32::try_from(from_fde.len())
+                .map_err(|_| ConvertError::Write(Error::ValueTooLarge))?;
             let mut fde = FrameDescriptionEntry::new(address, length);
 
             match from_fde.lsda() {
@@ -770,35 +781,50 @@ pub(crate) mod convert {
                     &NoConvertDebugInfoRef,
                 )
             };
-            // TODO: validate integer type conversions
+            // Offsets that do not fit the integer types of `CallFrameInstruction`
+            // cannot be converted.
+            let too_large = || ConvertError::Write(Error::ValueTooLarge);
+            let to_i32 = |x: i64| i32::try_from(x).map_err(|_| too_large());
+            let unsigned_to_i32 = |x: u64| i32::try_from(x).map_err(|_| too_large());
+            let factored = |factored_offset: i64| {
+                factored_offset
+                    .checked_mul(from_cie.data_alignment_factor())
+                    .ok_or_else(too_large)
+                    .and_then(to_i32)
+            };
+            let unsigned_factored = |factored_offset: u64| {
+                i64::try_from(factored_offset)
+                    .map_err(|_| too_large())
+                    .and_then(factored)
+            };
             Ok(Some(match from_instruction {
                 read::CallFrameInstruction::SetLoc { .. } => {
                     return Err(ConvertError::UnsupportedCfiInstruction);
                 }
                 read::CallFrameInstruction::AdvanceLoc { delta } => {
-                    *offset += delta * from_cie.code_alignment_factor() as u32;
+                    let delta = u64::from(delta)
+                        .checked_mul(from_cie.code_alignment_factor())
+                        .and_then(|delta| u64::from(*offset).checked_add(delta))
+                        .ok_or_else(too_large)?;
+                    *offset = u32::try_from(delta).map_err(|_| too_large())?;
                     return Ok(None);
                 }
                 read::CallFrameInstruction::DefCfa { register, offset } => {
-                    CallFrameInstruction::Cfa(register, offset as i32)
+                    CallFrameInstruction::Cfa(register, unsigned_to_i32(offset)?)
                 }
                 read::CallFrameInstruction::DefCfaSf {
                     register,
                     factored_offset,
-                } => {
-                    let offset = factored_offset * from_cie.data_alignment_factor();
-                    CallFrameInstruction::Cfa(register, offset as i32)
-                }
+                } => CallFrameInstruction::Cfa(register, factored(factored_offset)?),
                 read::CallFrameInstruction::DefCfaRegister { register } => {
                     CallFrameInstruction::CfaRegister(register)
                 }
 
                 read::CallFrameInstruction::DefCfaOffset { offset } => {
-                    CallFrameInstruction::CfaOffset(offset as i32)
+                    CallFrameInstruction::CfaOffset(unsigned_to_i32(offset)?)
                 }
                 read::CallFrameInstruction::DefCfaOffsetSf { factored_offset } => {
-                    let offset = factored_offset * from_cie.data_alignment_factor();
-                    CallFrameInstruction::CfaOffset(offset as i32)
+                    CallFrameInstruction::CfaOffset(factored(factored_offset)?)
                 }
                 read::CallFrameInstruction::DefCfaExpression { expression } => {
                     let expression = expression.get(frame)?;
@@ -813,31 +839,19 @@ pub(crate) mod convert {
                 read::CallFrameInstruction::Offset {
                     register,
                     factored_offset,
-                } => {
-                    let offset = factored_offset as i64 * from_cie.data_alignment_factor();
-                    CallFrameInstruction::Offset(register, offset as i32)
-                }
+                } => CallFrameInstruction::Offset(register, unsigned_factored(factored_offset)?),
                 read::CallFrameInstruction::OffsetExtendedSf {
                     register,
                     factored_offset,
-                } => {
-                    let offset = factored_offset * from_cie.data_alignment_factor();
-                    CallFrameInstruction::Offset(register, offset as i32)
-                }
+                } => CallFrameInstruction::Offset(register, factored(factored_offset)?),
                 read::CallFrameInstruction::ValOffset {
                     register,
                     factored_offset,
-                } => {
-                    let offset = factored_offset as i64 * from_cie.data_alignment_factor();
-                    CallFrameInstruction::ValOffset(register, offset as i32)
-                }
+                } => CallFrameInstruction::ValOffset(register, unsigned_factored(factored_offset)?),
                 read::CallFrameInstruction::ValOffsetSf {
                     register,
                     factored_offset,
-                } => {
-                    let offset = factored_offset * from_cie.data_alignment_factor();
-                    CallFrameInstruction::ValOffset(register, offset as i32)
-                }
+                } => CallFrameInstruction::ValOffset(register, factored(factored_offset)?),
                 read::CallFrameInstruction::Register {
                     dest_register,
                     src_register,
@@ -862,7 +876,7 @@ pub(crate) mod convert {
                 read::CallFrameInstruction::RememberState => CallFrameInstruction::RememberState,
                 read::CallFrameInstruction::RestoreState => CallFrameInstruction::RestoreState,
                 read::CallFrameInstruction::ArgsSize { size } => {
-                    CallFrameInstruction::ArgsSize(size as u32)
+                    CallFrameInstruction::ArgsSize(u32::try_from(size).map_err(|_| too_large())?)
                 }
                 read::CallFrameInstruction::NegateRaState => CallFrameInstruction::NegateRaState,
                 read::CallFrameInstruction::Nop => return Ok(None),
